@@ -23,6 +23,8 @@ def main():
     shutil.rmtree(src, ignore_errors=True)
     os.makedirs(src)
     name = rec["program"].replace("_selfcomp", "")
+    if "_rule_" in name:
+        name = name[:name.index("_rule_")]
     open(os.path.join(src, name + ".eql"), "w").write(rec["eql"])
     p = P.sh([exe, src, out])
     if p.returncode != 0:
@@ -39,6 +41,11 @@ def main():
         ok, obs = SC.replay(su, sch, h, name, (script["history_1"], script["history_2"]))
         print("history 1:", "; ".join(script["history_1"]))
         print("history 2:", "; ".join(script["history_2"]))
+    elif kind == "rule-level":
+        import canon
+        v = {"script": script[:-1], "query": script[-1], "expect": "Some" if rec["info"]["missing"].endswith("defined") else "true"}
+        ok, o = canon.replay(h, name, sch, su.prog, v)
+        obs = [o]
     elif kind == "forced":
         ok, obs = W.replay_forced(su, sch, h, name, script, rec["info"])
     elif kind == "effects":
